@@ -102,6 +102,15 @@ def _match(p, n, b: Dict[str, ast.AST]) -> bool:
             if set(nk) - pk:
                 return False
         return True
+    # identity tests are symmetric: a pattern `$X is module` matches `module is attr.p` as well (the canonical operand
+    # order of the code follows the text of the operands, which a pattern with metavariables cannot know)
+    if isinstance(p, ast.Compare) and len(p.ops) == 1 and isinstance(p.ops[0], (ast.Is, ast.IsNot)) and len(n.ops) == 1 and type(n.ops[0]) is type(p.ops[0]):
+        for a_, c_ in ((n.left, n.comparators[0]), (n.comparators[0], n.left)):
+            b2 = dict(b)
+            if _match(p.left, a_, b2) and _match(p.comparators[0], c_, b2):
+                b.update(b2)
+                return True
+        return False
     for fld in p._fields:
         pv = getattr(p, fld, None)
         nv = getattr(n, fld, None)
